@@ -99,6 +99,13 @@ class SimPopen:
         known = tag in sim.procs
         b = dict(DEFAULT_BEHAVIOUR)
         b.update(sim.procs.get(tag, {}))
+        # per-argument overrides: the same program behaves differently for a particular argument (e.g. a
+        # preprocessor that fails for one case file)
+        for ov in b.get('when_arg', ()):
+            flat = args if isinstance(args, str) else ' '.join(os.fspath(a) for a in args)
+            if ov['contains'] in flat:
+                b = dict(b)
+                b.update({k: v for k, v in ov.items() if k != 'contains'})
         if not known:
             sim.counts['unknown_tag'] += 1
         self._b = b
